@@ -112,7 +112,7 @@ Definition el_ok_b (t : mtype) (z : Z) : bool :=
   | TU8 => in_rng 0 (2 ^ 8) z | TU16 => in_rng 0 (2 ^ 16) z | TU32 => in_rng 0 (2 ^ 32) z
   | TU64 | TP => in_rng 0 (2 ^ 64) z
   | TF | TD | TLD => true
-  | TBLK _ | TRBLK => false
+  | TBLK _ | TRBLK | TUNDEF => false
   end.
 
 Lemma el_ok_b_spec t z : el_ok_b t z = true -> el_ok t z.
@@ -121,22 +121,36 @@ Proof.
     apply in_rng_spec in H; unfold in_s, in_u; cbn; lia.
 Qed.
 
+Definition types_ok_b (ts : list mtype) : bool := forallb (fun t => negb (is_undef t)) ts.
+Lemma types_ok_b_spec ts : types_ok_b ts = true -> types_ok ts.
+Proof.
+  unfold types_ok_b, types_ok. rewrite forallb_forall, Forall_forall. intros H t Ht. specialize (H t Ht).
+  now destruct (is_undef t).
+Qed.
+
 Definition wf_item_b (acc : list item) (it : item) : bool :=
   match it with
   | ItRef _ r _ => declared (st_mod [] [] acc) r
   | ItExpr _ f => declared_func (st_mod [] [] acc) f
   | ItLref _ l l2 _ => (0 <=? l) && match l2 with Some v => 0 <=? v | None => true end
-  | ItData _ t els => forallb (el_ok_b t) els
+  | ItData _ t els => negb (is_undef t) && forallb (el_ok_b t) els
+  | ItProto _ _ res args => types_ok_b res && types_ok_b (map v_type args)
   | ItFunc f => forallb (wf_insn_b (decl_of acc (f_name f))) (f_insns f)
+                && types_ok_b (f_res f) && types_ok_b (map v_type (f_args f)) && types_ok_b (map fst (f_locals f))
+                && types_ok_b (map (fun v : mtype * name * name => fst (fst v)) (f_globals f))
   | _ => true
   end.
 
 Lemma wf_item_b_spec acc it : wf_item_b acc it = true -> wf_item acc it.
 Proof.
   destruct it as [x|x|x|x l|x t els|x r d|x l l2 d|x f|x va res args|f]; cbn [wf_item_b wf_item]; intros H; try exact I; try assumption.
-  - apply Forall_forall. intros z Hz. apply el_ok_b_spec. exact (proj1 (forallb_forall _ _) H z Hz).
+  - apply andb_true_iff in H. destruct H as [Hu H]. split; [now destruct (is_undef t)|].
+    apply Forall_forall. intros z Hz. apply el_ok_b_spec. exact (proj1 (forallb_forall _ _) H z Hz).
   - apply andb_true_iff in H. destruct H as [H1 H2]. split; [now apply Z.leb_le|]. destruct l2; [now apply Z.leb_le | exact I].
-  - unfold wf_func_body. apply Forall_forall. intros i Hi. apply wf_insn_b_spec. exact (proj1 (forallb_forall _ _) H i Hi).
+  - apply andb_true_iff in H. destruct H. split; now apply types_ok_b_spec.
+  - rewrite !andb_true_iff in H. destruct H as [[[[H1 H2] H3] H4] H5]. unfold wf_func_body.
+    split; [|repeat split; now apply types_ok_b_spec].
+    apply Forall_forall. intros i Hi. apply wf_insn_b_spec. exact (proj1 (forallb_forall _ _) H1 i Hi).
 Qed.
 
 Fixpoint wf_items_b (acc : list item) (its : list item) : bool :=
